@@ -2,7 +2,7 @@ from common import KERNEL, CORR
 
 PROP = dict(
     level="proof",
-    generators=["C07"],
+    generators=["C07", "C12"],   # the RTP unpacker ops too (fragmented units, sequence-number wrap)
     harness_timeout=1500,
     trusted_base=[
         KERNEL, CORR,
